@@ -32,6 +32,50 @@ def smarts_for(tot, first):
     return pats
 
 
+def rand_pattern(n, rng):
+    """a SMARTS with exactly n atoms in the style of rdFMCS output (atomic numbers, explicit bonds, optional ring)"""
+    if n == 0:
+        return ""
+    atoms = [rng.choice(["[#6]", "[#6]", "[#6]", "[#7]", "[#8]", "[#16]", "[#17]", "[#6&R]", "[#6,#7]"]) for _ in range(n)]
+    ring = n >= 5 and rng.random() < 0.5
+    out = []
+    for k, a in enumerate(atoms):
+        if k:
+            out.append(":" if ring and k < 6 else rng.choice(["-", "-", "=", "~"]))
+        out.append(a)
+        if ring and k == 0:
+            out.append("1")
+        if ring and k == min(n, 6) - 1:
+            out.append(":1" if False else "1")
+    return "".join(out)
+
+
+def rand_table(rng):
+    """a table well outside the TLC bound: 2-5 conditions, 1-7 reactions, 0-5 patterns of 0-16 atoms per entry,
+    ties made likely, sometimes conditions of unequal length"""
+    ncond, nrx = rng.randint(2, 5), rng.randint(1, 7)
+    base = [[rng.choice([0, 1, 2, 3, 5, 8, 10, 12, 16]) for _ in range(rng.randint(0, 5))] for _ in range(nrx)]
+    conds = []
+    for c in range(ncond):
+        n = nrx if rng.random() < 0.85 else rng.randint(1, nrx)
+        cond = []
+        for p in range(n):
+            r = rng.random()
+            sizes = list(base[p])
+            if r < 0.35:
+                pass                                  # identical -> full tie
+            elif r < 0.6:
+                rng.shuffle(sizes)                    # same total, other first pattern
+            elif r < 0.8 and sizes:
+                j = rng.randrange(len(sizes))
+                sizes[j] = max(0, sizes[j] + rng.choice([-2, -1, 1, 2]))
+            else:
+                sizes = [rng.choice([0, 1, 4, 7, 11, 15]) for _ in range(rng.randint(0, 5))]
+            cond.append({"id": p + 1, "sizes": sizes, "tot": sum(sizes), "first": sizes[0] if sizes else 0})
+        conds.append(cond)
+    return conds
+
+
 def natoms(p):
     if not p:
         return 0
@@ -62,10 +106,14 @@ def main():
 
     with open(tables_file) as f:
         tables = json.load(f)
+    nbig = 400 if tier == "quick" else 6000
+    tables = tables + [rand_table(rng) for _ in range(nbig)]
     for conds in tables:
         real = []
         for c, cond in enumerate(conds, 1):
-            real.append([{"id": "r%d" % e["id"], "mcs_results": smarts_for(e["tot"], e["first"]),
+            real.append([{"id": "r%d" % e["id"],
+                          "mcs_results": ([rand_pattern(z, rng) for z in e["sizes"]] if "sizes" in e
+                                          else smarts_for(e["tot"], e["first"])),
                           "sorted_reactants": ["C" * max(1, e["tot"])], "issue": "", "_tag": [c, p]}
                          for p, e in enumerate(cond, 1)])
         res = ExtractMCS.get_largest_condition(*real)
@@ -80,7 +128,11 @@ def main():
     pool = corpus.small_fast(corpus.unbalanced_reactions() + corpus.plain_reactions(), max_heavy=24)
     fixed = ["CC(=O)OCC>>CCO", "BrBr>>Cl", "CC(=O)OC>>CC(=O)O", "CCO>>CCO", "CC>>CCC", "CS(=O)(=O)OC.CC(=O)OC>>CC(=O)O",
              "COC(=O)c1ccccc1.N>>NC(=O)c1ccccc1", "c1ccccc1C(=O)Cl.OC>>c1ccccc1C(=O)OC", "CCC=O>>CCC=C(C)C=O",
-             "OC(=O)CCC(=O)O>>O=C1CCC(=O)O1", "CC(C)(C)OC(=O)NCC>>NCC"]
+             "OC(=O)CCC(=O)O>>O=C1CCC(=O)O1", "CC(C)(C)OC(=O)NCC>>NCC",
+             # three and more molecules, duplicated molecules, molecules of equal size, products side richer
+             "CCO.CCO.CC(=O)OC>>CC(=O)OCC", "CC(=O)Cl.OCC.NCC.CCBr>>CC(=O)OCC.CC(=O)NCC", "CCCO.CCCN.CCCS.CCCCl>>CCCOCCC",
+             "CCO>>CC(=O)OCC.CC(=O)OCC.CCOC(C)=O", "c1ccccc1Br.c1ccccc1Br.OB(O)c1ccccc1>>c1ccc(cc1)-c1ccccc1",
+             "CC(C)O.CC(C)N.CC(C)S>>CC(C)OC(C)C.N", "CCN.CCN.CCN.CCN>>CCNCC", "OCC.OCC>>CCOCC.CCOCC.O"]
     nb, bsz = (4, 24) if tier == "quick" else (40, 40)
     for b in range(nb):
         rx = list(fixed) + corpus.sample(pool, bsz, rng)
